@@ -2613,7 +2613,18 @@ impl VmGreenThread {
             }
         }
         if self.gray_stack.is_empty() {
-            self.gc_state = GcState::Sweeping { index: 0 };
+            // The program may have moved references onto the operand stack (or into the
+            // operands of a suspended string operation) since the roots were scanned at
+            // the start of the cycle. Rescan the roots; only start sweeping once that
+            // finds nothing left to mark.
+            for v in self.value_stack.iter() {
+                Self::mark(v, &mut self.gray_stack, self.gc_visited);
+            }
+            Self::mark(&self.string_operand1, &mut self.gray_stack, self.gc_visited);
+            Self::mark(&self.string_operand2, &mut self.gray_stack, self.gc_visited);
+            if self.gray_stack.is_empty() {
+                self.gc_state = GcState::Sweeping { index: 0 };
+            }
         }
     }
 
